@@ -76,3 +76,13 @@ func cmdSmoke(args []string) int {
 	fmt.Println("events:", st.Events.Events)
 	return 0
 }
+
+func init() {
+	commands["catalog"] = func(args []string) int {
+		st := NewStack(StackOpts{})
+		for _, l := range st.PG.Catalog() {
+			fmt.Println(l)
+		}
+		return 0
+	}
+}
